@@ -98,7 +98,14 @@ class RealWorld:
     def __init__(self, desc):
         self.desc = desc
         ov = {int(e): set(int(x) for x in s) for e, s in desc["overlap"]}
-        self.grid = Grid(desc["rows"], desc["cols"], overlapping=ov if ov else None)
+        if desc.get("overlap0") is not None:
+            # a history: the grid was built with another table, which was then replaced through the public
+            # `overlapping` setter (whatever the grid derived from the first table must not survive)
+            ov0 = {int(e): set(int(x) for x in s) for e, s in desc["overlap0"]}
+            self.grid = Grid(desc["rows"], desc["cols"], overlapping=ov0 if ov0 else None)
+            self.grid.overlapping = ov if ov else None
+        else:
+            self.grid = Grid(desc["rows"], desc["cols"], overlapping=ov if ov else None)
         self.agent_list = [make_agent(i, a) for i, a in enumerate(desc["agents"])]
         self.agents = {a.id: a for a in self.agent_list}
         self.idx = {a.id: i for i, a in enumerate(self.agent_list)}
@@ -241,7 +248,10 @@ def gen_world(rng, max_side=5, max_agents=7, kinds=None, dead_prob=0.15):
         agents.append(a)
         state.append({"pos": list(pos), "health": health, "ammo": rng.randint(0, 4),
                       "orient": rng.randint(1, 4)})
-    return {"rows": rows, "cols": cols, "overlap": overlap, "agents": agents, "state": state}
+    desc = {"rows": rows, "cols": cols, "overlap": overlap, "agents": agents, "state": state}
+    if rng.random() < 0.2:
+        desc["overlap0"] = gen_overlap(rng, encs)       # the table the grid was first built with (see RealWorld)
+    return desc
 
 
 # ----------------------------------------------------------------------------------------------
